@@ -6,13 +6,13 @@ from props import srvprop
 def nontrivial(cfg, ops, results):
     n = 0
     for o, (effs, _) in zip(ops, results):
-        if o[0] == 'msg' and any(e[0] == 'Call' for e in effs) and any(e[0] == 'Out' for e in effs):
+        if o[0] in ('msg', 'msg_sd') and any(e[0] == 'Call' for e in effs) and any(e[0] == 'Out' for e in effs):
             n += 1
     return n >= 1 and sum(1 for o in ops if o[0] == 'eio_connect') >= 2
 
 
 def run(chk):
-    k = server_hist.Knobs(n_ops=32, refuse=0.05, actions=0.0, catchall=0.35, class_ns=0.4)
+    k = server_hist.Knobs(n_ops=32, refuse=0.05, actions=0.0, catchall=0.35, class_ns=0.4, self_disconnect=0.15)
     k.w.update({'event': 9, 'binary': 2.5, 'connect': 5, 'emit': 0.5, 'emit_cb': 0.2, 'enter': 0.5, 'leave': 0.2,
                 'close_room': 0.1, 'rooms': 0.2, 'session': 0.1, 'junk': 0.6, 'ack': 0.3, 'client_disconnect': 1.2})
     chk.assumptions = ['handlers run inline (async_handlers=False); with background handlers the same code runs in a task',
